@@ -92,6 +92,8 @@ def judge(case, impl, model):
                 fails.append((f"not-pure-json:{site}", "serialized form contains non-JSON Python objects: " + json.dumps(impl["ser"]["ok"])[:300]))
             if not impl.get("ser_fn_same"):
                 fails.append((f"serialize-fn-differs:{site}", "serialize(x) != Serializer(x).serialize()"))
+            if impl.get("ser_field_diffs") not in (None, []):
+                fails.append((f"serialize-field-differs:{site}", f"serialize_field(Class.f, x.f) is not field f's part of Serializer(x).serialize(): {impl['ser_field_diffs']}"))
             if "ok" not in impl.get("back", {}):
                 fails.append((f"roundtrip-raises:{site}", f"Deserializer rejects the serialized form: {impl['back'].get('err')}: {impl['back'].get('msg')}; doc " + json.dumps(impl["ser"]["ok"])[:300]))
             elif not impl.get("eq"):
